@@ -323,14 +323,28 @@ theorem wait_before_postpones_not_loses (p : Params) (hw : p.wellTyped = true) (
          by rw [h.2.2.2.2.2.1, x5], h.2.2.2.2.2.2.1 _ x6, by rw [h.2.2.1, x7]⟩
 
 /-- …and the postponed start is the only one: when the continue job is delivered (not before it
-    is due) exactly one action execution is started and the task is RUNNING. -/
+    is due) to the still-DELAYED task exactly one action execution is started and the task is RUNNING. -/
 theorem continue_job_starts_one_action (p : Params) (s : S) (idx : Nat) (due : Nat)
-    (hj : s.jobs[idx]? = some ⟨.cont, due⟩) (hdue : due ≤ s.now) (hx : p.execTimeoutRaises = false) :
+    (hj : s.jobs[idx]? = some ⟨.cont, due⟩) (hdue : due ≤ s.now) (hx : p.execTimeoutRaises = false)
+    (hd : s.st = .delayed) (ho : hasOutstanding s.acts = false) :
     (fire p s idx).acts.length = s.acts.length + 1 ∧ (fire p s idx).st = .running ∧
     contJobs (fire p s idx) + 1 = contJobs s := by
   have hc := countP_eraseIdx_add isCont s.jobs idx _ hj
-  simp [fire, hj, Nat.not_lt.mpr hdue, continueTask, scheduleAction, hx, resetActions, contJobs, isCont] at hc ⊢
+  simp [fire, hj, Nat.not_lt.mpr hdue, hd, ho, continueTask, scheduleAction, hx, resetActions, contJobs, isCont] at hc ⊢
   omega
+
+/-- 831643dc: a continue / complete job delivered to a task that is not DELAYED any more (failed by its
+    timeout, completed by a late result, continued by another job) is stale: it only disappears. -/
+theorem stale_job_ignored (p : Params) (s : S) (idx : Nat) (j : Job)
+    (hj : s.jobs[idx]? = some j) (hk : j.kind ≠ .timeout) (hd : s.st ≠ .delayed) :
+    fire p s idx = { s with jobs := s.jobs.eraseIdx idx } ∨ fire p s idx = s := by
+  by_cases hdue : s.now < j.dueAt
+  · right; simp [fire, hj, hdue]
+  · left
+    cases hkk : j.kind with
+    | timeout => exact absurd hkk hk
+    | cont => simp [fire, hj, hdue, hkk, hd]
+    | complete st m => simp [fire, hj, hdue, hkk, hd]
 
 /-- non-vacuity: wait-before 3 — nothing runs before the job fires, one action after -/
 example : (run { waitBefore := .int 3 } init [.startNew, .tick 2, .fire 0]).acts.length = 0
@@ -497,7 +511,7 @@ example : (run { pauseBefore := .bool true, waitBefore := .int 2, timeout := .in
 /-- "policy_type_checked": if any evaluated parameter fails its schema check (non-integer, negative,
     non-boolean pause-before) the task start raises InvalidModelException inside `run_task`, which
     force-fails the task: ERROR with the forced message, no action execution, and the workflow fails
-    (even when a pause-before of the same start had just paused it). -/
+    (3cd97083: even when a pause-before of the same start had just paused it). -/
 theorem policy_type_checked (p : Params) (hw : p.wellTyped = false) (s : S) (hs : fresh s) :
     (startNew p s).st = .error ∧ (startNew p s).msg = .forced ∧ (startNew p s).acts = s.acts ∧
     (startNew p s).wf ≠ .running ∧ (startNew p s).crashes = s.crashes := by
@@ -510,10 +524,10 @@ theorem policy_type_checked (p : Params) (hw : p.wellTyped = false) (s : S) (hs 
   rw [hy] at hr hcr
   simp only [R.state] at hr hcr
   rw [e0]
-  have el : launch p { s with pendingNew := false } = forceFail s.wf y := by simp only [launch, hy]
+  have el : launch p { s with pendingNew := false } = forceFail y := by simp only [launch, hy]
   rw [el]
   refine ⟨rfl, rfl, hr.acts, ?_, hcr⟩
-  simp [forceFail, h4]
+  simp [forceFail]
 
 /-- well-typed parameters never force-fail the start -/
 theorem well_typed_start_not_forced (p : Params) (hw : p.wellTyped = true) (s : S) (hs : fresh s)
@@ -539,56 +553,94 @@ theorem policy_type_checked_no_crash_partial (p : Params) (hx : p.execTimeoutRai
     (run p init evs).crashes = 0 := by
   rw [run_crashes p hx evs init]; rfl
 
-/-- The unrestricted statement is false of the code: wait-before 2 has already scheduled its continue
-    job when a task-level `timeout` evaluating to a string fails the type check; the task is force-failed,
-    and when the stale job fires `continue_task → _schedule_actions → _get_timeout` evaluates
-    `'abc' > 0`: TypeError escapes the scheduler job.  (Replayed on the engine: known finding.) -/
-theorem policy_type_checked_no_crash_full_fails :
-    ¬ (∀ (p : Params) (evs : List Ev), (run p init evs).crashes = 0) := by
+/-- "…not a crash", full strength (true since 831643dc; was `…_full_fails`): for ALL parameters — the
+    only link assumed is the one the code has, a task-level timeout `> 0` is undefined for is itself
+    ill-typed — and ALL event sequences no undeclared exception escapes.  Before the fix the stale
+    wait-before job of a force-failed task reached `_get_timeout` ('abc' > 0: TypeError); now an
+    ill-typed task never gets an action execution at all (`IllInv`). -/
+theorem policy_type_checked_no_crash (p : Params) (hcons : p.execTimeoutRaises = true → p.timeout.valid = false)
+    (evs : List Ev) : (run p init evs).crashes = 0 := by
+  cases hx : p.execTimeoutRaises with
+  | false => exact policy_type_checked_no_crash_partial p hx evs
+  | true =>
+    have hv := hcons hx
+    have hw : p.wellTyped = false := by simp [Params.wellTyped, hv]
+    exact (illInv_run p hw evs init illInv_init).cr
+
+/-- …and an ill-typed task never runs an action, whatever fires later (the "zombie" attempt of a
+    force-failed task is gone). -/
+theorem ill_typed_never_runs (p : Params) (hw : p.wellTyped = false) (evs : List Ev) :
+    (run p init evs).acts = [] ∧ ((run p init evs).st = .idle ∨ (run p init evs).st = .error) :=
+  ⟨(illInv_run p hw evs init illInv_init).acts, (illInv_run p hw evs init illInv_init).st⟩
+
+example : (run { waitBefore := .int 2, timeout := .other, execTimeoutRaises := true } init
+    [.startNew, .tick 2, .fire 0]).crashes = 0
+  ∧ (run { waitBefore := .int 2, timeout := .other, execTimeoutRaises := true } init
+    [.startNew, .tick 2, .fire 0]).st = .error := by decide
+
+/-! ## Trace level, for ALL timer orders -/
+
+/-- "stops at the first success", trace level, full strength (true since 831643dc; was
+    `stops_at_first_success_full_fails`): once the task is SUCCESS no event — stale continue / complete
+    job, timer, late result, resume, redelivered start — changes its state or starts another action. -/
+theorem success_is_final (p : Params) (s : S) (e : Ev) (h : s.st = .success) :
+    (step p s e).st = .success ∧ (step p s e).acts.length = s.acts.length := success_final_step p s e h
+
+theorem stops_at_first_success_trace (p : Params) (evs evs' : List Ev) (h : (run p init evs).st = .success) :
+    (run p (run p init evs) evs').st = .success ∧
+    (run p (run p init evs) evs').acts.length = (run p init evs).acts.length :=
+  success_final_run p _ evs' h
+
+/-- the former witness (timeout 3, retry 1×5, late result, stale continue job) now stops -/
+example : (run { timeout := .int 3, retry := some ⟨.int 1, .int 5, false, false⟩ } init
+    [.startNew, .tick 3, .fire 0, .result 0 .success false false, .tick 5, .fire 0]).acts.length = 1
+  ∧ (run { timeout := .int 3, retry := some ⟨.int 1, .int 5, false, false⟩ } init
+    [.startNew, .tick 3, .fire 0, .result 0 .success false false, .tick 5, .fire 0]).st = .success := by decide
+
+/-- a task that ended ERROR (timeout, exhausted retries, break-on, fail-on) stays ERROR and runs no
+    further action — provided no start request of it is still in flight. -/
+theorem error_is_final_partial (p : Params) (s : S) (e : Ev) (h : s.st = .error) (hpe : s.pendingExisting = false) :
+    (step p s e).st = .error ∧ (step p s e).acts.length = s.acts.length ∧ (step p s e).pendingExisting = false :=
+  error_final_step p s e h hpe
+
+/-- STILL FALSE without that proviso: the timer is armed although pause-before left the task IDLE; if
+    it expires between `resume` and the delivery of the re-queued start, the task is failed by its timeout
+    and then run by `_run_existing` (ERROR → RUNNING). -/
+theorem error_is_final_full_fails :
+    ¬ (∀ (p : Params) (evs : List Ev) (e : Ev), p.wellTyped = true → (run p init evs).st = .error →
+        (step p (run p init evs) e).st = .error) := by
   intro h
-  have := h { waitBefore := .int 2, timeout := .other, execTimeoutRaises := true } [.startNew, .tick 2, .fire 0]
+  have := h { pauseBefore := .bool true, timeout := .int 2 } [.startNew, .resume, .tick 2, .fire 0] .startExisting
+    (by decide) (by decide)
   revert this; decide
 
-/-! ## What is false of the code for ALL timer orders (genuine defects, replayed on the engine) -/
-
-/-- Trace-level "stops at the first success" is FALSE when a timeout timer is involved: the timer
-    fails the running attempt, retry re-delays the task, the late result of that attempt completes
-    the task SUCCESS, and the stale continue job then starts another action (witness: count 1,
-    delay 5, timeout 3).  `continue_task` sets RUNNING from any state. -/
-theorem stops_at_first_success_full_fails :
-    ¬ (∀ (p : Params) (evs : List Ev) (e : Ev), p.wellTyped = true →
-        (∀ r, p.retry = some r → r.hasContinueOn = false) → p.failOn.truthy = false →
-        (run p init evs).st = .success →
-        (step p (run p init evs) e).acts.length = (run p init evs).acts.length) := by
-  intro h
-  have := h { timeout := .int 3, retry := some ⟨.int 1, .int 5, false, false⟩ }
-    [.startNew, .tick 3, .fire 0, .result 0 .success false false, .tick 5] (.fire 0)
-    (by decide) (by decide) (by decide) (by decide)
-  revert this; decide
-
-/-- Trace-level "ends SUCCESS iff its last attempt counts as success" is FALSE with a timeout timer:
-    a stale wait-after complete job and the timer both consume a retry, two attempts run at once, the
-    first to answer decides (witness from a generated run). -/
+/-- Trace-level "ends SUCCESS iff its last attempt counts as success" is STILL FALSE with a timeout timer
+    (the witness of the unfixed code — two concurrent attempts — is gone, this one remains): `_complete_task`
+    only checks that the task is DELAYED, not that it is DELAYED by wait-after.  wait-after 10, timeout 2,
+    retry 2×4: first attempt succeeds (complete job due 10), the timer fails the DELAYED task, retry runs a
+    second attempt which fails and is re-delayed until 10; the wait-after job of the FIRST attempt then
+    completes the task SUCCESS although the last attempt failed. -/
 theorem final_success_iff_last_attempt_success_full_fails :
     ¬ (∀ (p : Params) (evs : List Ev), p.wellTyped = true → p.failOn.truthy = false →
         (run p init evs).jobs = [] → (∀ a ∈ (run p init evs).acts, a.res.isSome = true) →
         ((run p init evs).st = .success ↔
           ∃ c b, ((run p init evs).acts.getLast?.bind (·.res)) = some (.success, c, b))) := by
   intro h
-  have := h { timeout := .int 10, waitAfter := .int 2, retry := some ⟨.int 2, .int 2, false, false⟩ }
-    [.startNew, .tick 10, .result 0 .error false false, .tick 2, .fire 0, .fire 0, .tick 2, .fire 0, .fire 0,
-     .result 1 .success false false, .result 2 .error false false]
+  have := h { timeout := .int 2, waitAfter := .int 10, retry := some ⟨.int 2, .int 4, false, false⟩ }
+    [.startNew, .result 0 .success false false, .tick 2, .fire 0, .tick 4, .fire 1, .result 1 .error false false,
+     .tick 4, .fire 0, .fire 0]
     (by decide) (by decide) (by decide) (by decide)
-  have hs : (run { timeout := .int 10, waitAfter := .int 2, retry := some ⟨.int 2, .int 2, false, false⟩ } init
-    [.startNew, .tick 10, .result 0 .error false false, .tick 2, .fire 0, .fire 0, .tick 2, .fire 0, .fire 0,
-     .result 1 .success false false, .result 2 .error false false]).st = .success := by decide
+  have hs : (run { timeout := .int 2, waitAfter := .int 10, retry := some ⟨.int 2, .int 4, false, false⟩ } init
+    [.startNew, .result 0 .success false false, .tick 2, .fire 0, .tick 4, .fire 1, .result 1 .error false false,
+     .tick 4, .fire 0, .fire 0]).st = .success := by decide
   obtain ⟨c, b, hcb⟩ := this.mp hs
   revert hcb
   cases c <;> cases b <;> decide
 
-/-- Trace-level "pause-before: no action before resume" is FALSE with a timeout timer: the timer is
-    armed at the paused start, fails the IDLE task, retry re-delays it and the continue job starts the
-    action while the workflow is still PAUSED (witness: pause-before, timeout 2, count 1). -/
+/-- Trace-level "pause-before: no action before resume" is STILL FALSE with a timeout timer (not a
+    stale job: the task really is DELAYED by retry): the timer is armed at the paused start, fails the IDLE
+    task, retry re-delays it and the continue job starts the action while the workflow is still PAUSED
+    (witness: pause-before, timeout 2, count 1). -/
 theorem pause_before_no_action_until_resume_full_fails :
     ¬ (∀ (p : Params) (evs : List Ev), p.wellTyped = true → p.pauseBefore.truthy = true →
         (∀ e ∈ evs, e ≠ .resume) → (run p init evs).acts = []) := by
